@@ -106,6 +106,7 @@ type received struct {
 	headers     http.Header
 	body        []byte
 	bodyErr     error
+	bodyDone    bool // the handler finished reading the request body (a hedged loser's handler may still be at it)
 	arrived     time.Time
 	sent        time.Time
 	respStart   time.Time
@@ -160,7 +161,7 @@ func runHTTP(sc httpScenario) (out httpOut) {
 		readBody := func() {
 			b, err := io.ReadAll(r.Body)
 			mu.Lock()
-			rc.body, rc.bodyErr = b, err
+			rc.body, rc.bodyErr, rc.bodyDone = b, err, true
 			mu.Unlock()
 		}
 		if a.RetryAfter != "" {
@@ -410,7 +411,11 @@ func runHTTP(sc httpScenario) (out httpOut) {
 	endScenario()
 	time.Sleep(200 * time.Microsecond)
 	mu.Lock()
-	recv := append([]*received(nil), got...)
+	recv := make([]*received, len(got))
+	for i, rc := range got {
+		c := *rc // a copy taken under the lock: handlers of abandoned attempts may still be running
+		recv[i] = &c
+	}
 	obs := append([]ctxObs(nil), ctxs...)
 	mu.Unlock()
 	out.attempts = len(recv)
@@ -434,7 +439,7 @@ func runHTTP(sc httpScenario) (out httpOut) {
 		}
 		early := i < len(sc.Server) && sc.Server[i].Mode == "early-response"
 		aborted := sc.CancelCall || realHedge // the client may abandon an attempt while its body is in flight
-		if !early && !(aborted && rc.bodyErr != nil) {
+		if !early && !(aborted && (rc.bodyErr != nil || !rc.bodyDone)) {
 			if rc.bodyErr != nil && !aborted {
 				return fail("attempt-body", "attempt %d: the server could not read the request body: %v", i+1, rc.bodyErr)
 			}
